@@ -21,6 +21,7 @@ pub(crate) struct ComparisonDataset {
     gm_priority_2: u8,
     steps_removed: u16,
     identity_of_senders: ClockIdentity,
+    port_of_senders: u16,
     identity_of_receiver: PortIdentity,
 }
 
@@ -38,6 +39,7 @@ impl ComparisonDataset {
             gm_priority_2: message.grandmaster_priority_2,
             steps_removed: message.steps_removed,
             identity_of_senders: message.header.source_port_identity.clock_identity,
+            port_of_senders: message.header.source_port_identity.port_number,
             identity_of_receiver: *port_receiver_identity,
         }
     }
@@ -50,6 +52,7 @@ impl ComparisonDataset {
             gm_priority_2: data.priority_2,
             steps_removed: 0,
             identity_of_senders: data.clock_identity,
+            port_of_senders: 0,
             identity_of_receiver: PortIdentity {
                 clock_identity: data.clock_identity,
                 port_number: 0,
@@ -112,7 +115,12 @@ impl ComparisonDataset {
                 Ordering::Greater => DatasetOrdering::BetterByTopology,
             },
             0 => {
-                let senders = self.identity_of_senders.cmp(&other.identity_of_senders);
+                // senders are compared as port identities (IEEE 1588-2019 7.5.2.4):
+                // clock identity first, then port number
+                let senders = self
+                    .identity_of_senders
+                    .cmp(&other.identity_of_senders)
+                    .then(self.port_of_senders.cmp(&other.port_of_senders));
                 let receivers = Ord::cmp(
                     &self.identity_of_receiver.port_number,
                     &other.identity_of_receiver.port_number,
